@@ -1,4 +1,4 @@
-// vh: the verification harness. For one property it generates cases from the seed, runs
+// development binary for one area
 // the Go implementation and the extracted Coq model on them (correspondence), evaluates
 // the property itself on the implementation (oracle / failing-input search), and writes a
 // JSON result that bin/check turns into a verdict and an evidence file.
